@@ -334,6 +334,36 @@ def wf_wait(w: int, n: int = 3, timeout: float | None = None) -> type:
     ])
 
 
+def wf_wait_all(k: int, w: int) -> type:
+    """k inputs of one step all park in wait_for_event for the same event type (distinct waiter ids, no requirements):
+    ONE answer resolves all of them in a single tick, and their replays compete for the step's w slots"""
+    async def start(self, ctx, ev, inv):  # noqa: ANN001
+        for i in range(k):
+            ctx.send_event(Work(uid=i))
+        return None
+
+    async def ask(self, ctx, ev, inv):  # noqa: ANN001
+        r = await ctx.wait_for_event(Resp, timeout=None, waiter_id=f"w{ev.uid}", waiter_event=Ask(uid=ev.uid))
+        await gate(f"a{ev.uid}")
+        return Done(uid=10 * r.uid + ev.uid)
+
+    async def fin(self, ctx, ev, inv):  # noqa: ANN001
+        r = ctx.collect_events(ev, [Done] * k)
+        if r is None:
+            return None
+        return StopEvent(result=sorted(e.uid for e in r))
+
+    return make_workflow("WaitAll", [
+        make_step("start", [StartEvent], [Work, None], start),
+        make_step("ask", [Work], [Done], ask, num_workers=w),
+        make_step("fin", [Done], [StopEvent, None], fin, num_workers=1),
+    ])
+
+
+def wait_all_scripts(state: dict[str, Any]) -> list[list[Action]]:
+    return [[Action("send Resp7 (answers every waiter)", lambda: state["hd"].ctx.send_event(Resp(uid=7, key="all")))]]
+
+
 def wf_early_stop(k: int, w: int, wait: bool = False) -> type:
     """``start`` hands out k Work events and ends the run with a StopEvent whenever its gate opens - possibly while
     ``work`` still has invocations running / queued, ``fin`` holds a partial collection, or (wait=True) ``work`` is
@@ -472,6 +502,10 @@ def catalog(tier: str) -> list[Spec]:
                        max_dev=(3 if q else 5), tags=("wait",)))
     sp.append(Spec("wait_timeout(w=2)", {}, lambda: wf_wait(2, n=2, timeout=5.0), scripts=resp_scripts(2),
                    max_dev=(3 if q else 6), tags=("wait", "timeout")))
+    # one answer resolves every waiter of the step in one tick
+    for k, w in ([(3, 1), (3, 2)] if q else [(3, 1), (3, 2), (3, 3), (4, 2)]):
+        sp.append(Spec(f"wait_all(k={k},w={w})", {"k": k, "w": w}, (lambda k=k, w=w: wf_wait_all(k, w)), scripts=wait_all_scripts,
+                       max_dev=(3 if q else 5), tags=("wait", "multi_resolve")))
     for n in (1, 2, 3):
         sp.append(Spec(f"chain(n={n})", {"n": n}, (lambda n=n: wf_chain(n)), tags=("chain",)))
     sp.append(Spec("hitl", {}, wf_stream_writer, scripts=hitl_scripts, tags=("hitl",)))
